@@ -3973,7 +3973,9 @@ size_t space_col_align(Chunk *first, Chunk *second)
       LOG_FMT(LSPACE, "%s(%d):    => first len        is %zu\n", __func__, __LINE__, first->Len());
 
       if (  first->GetOrigLine() == second->GetOrigLine()
-         && second->GetOrigCol() > (first->GetOrigCol() + first->Len()))
+         && second->GetOrigCol() > (first->GetOrigCol() + first->Len())
+         && (  first->GetStr().find("\t") < 0      // a tab inside the first text makes it wider than its length
+            || second->GetOrigCol() > first->GetOrigColEnd()))
       {
          coldiff++;
       }
